@@ -72,6 +72,7 @@ class Driver:
     def run(self, ops: list[tuple[str, str, str]]) -> list[dict[str, Any]]:
         """ops: [("register", "registered", r) | ("req", new, r)] -> the paired trace."""
         self.n += 1
+        self.last_inv: dict[str, Any] = {}
         ids: dict[str, str] = {f: f"unknown-{self.n}" for f in world.FAMILIES}
         trace = []
         for op, new, runner in ops:
@@ -89,6 +90,14 @@ class Driver:
                         finally:
                             context.clear_runner_context(app.app_id)
                         ids[fam] = inv.invocation_id
+                        self.last_inv[fam] = inv
+                    elif op == "reregister":
+                        # the same invocation submitted again (a client repeating a submission it believes lost)
+                        context.set_runner_context(app.app_id, world.ctx(rid))
+                        try:
+                            app.orchestrator.register_new_invocations([self.last_inv[fam]])
+                        finally:
+                            context.clear_runner_context(app.app_id)
                     else:
                         app.orchestrator.set_invocation_status(
                             InvocationId(ids[fam]), InvocationStatus(new), world.ctx(rid))
@@ -135,7 +144,7 @@ def witness_paths(graph: tlc.Graph) -> dict[tuple[str, str], list[tuple[str, str
 
 
 def all_requests() -> list[tuple[str, str, str]]:
-    return [("req", s, r) for s in STATUSES for r in REQUESTERS]
+    return [("req", s, r) for s in STATUSES for r in REQUESTERS] + [("reregister", "registered", "r1")]
 
 
 def sequences_from_graph(graph: tlc.Graph, depth: int) -> list[list[tuple[str, str, str]]]:
@@ -237,6 +246,8 @@ def run(ctx: Ctx) -> None:
         single = []
         for key in reachable:
             for req in all_requests():
+                if req[0] == "reregister" and not paths[key]:
+                    continue          # nothing registered yet: that is Register, not a second registration
                 single.append(paths[key] + [req])
         t = [drv.run(s) for s in single]
         for s, tr in zip(single, t):
